@@ -64,6 +64,7 @@ def gen_cases(tier: str, seed: int) -> List[Dict[str, Any]]:
 
 
 def band(ctx, key: str, what: str, value: float, lo: float, hi: float, **detail) -> None:
+    ctx.stat(key.split(":", 1)[1], value)
     if not (lo <= value <= hi) or value != value:
         ctx.violation(key, f"{what} = {value:.4f} outside [{lo},{hi}]", **detail)
 
